@@ -43,12 +43,13 @@ class FnSpec:
     """Contract for one function (insert-only)."""
 
     def __init__(self, ret=None, sig="", loops=None, at=None, ghost=False, body_start="",
-                 rewrites=None, attrs="", no_unwind=True, generics=None, try_explicit=False, names=None, shape_free=False, counted=None):
+                 rewrites=None, attrs="", no_unwind=True, generics=None, try_explicit=False, names=None, shape_free=False, counted=None, locks=False):
         self.ret = ret            # name for the return value:  -> T   becomes  -> (ret: T)
         self.sig = sig            # requires/ensures/decreases text, inserted before the body `{`
         self.loops = loops or {}  # ordinal (1-based) -> invariant/decreases text, before loop body `{`
         self.at = at or []        # list of (where, snippet, occurrence, text): where in before/after
         self.ghost = ghost        # add the ghost World parameter
+        self.locks = locks        # T-LOCK / T-DROP: make the lock discipline of the function explicit (eav/locks.py)
         self.body_start = body_start  # proof text inserted right after the body's `{`
         self.rewrites = rewrites or []  # list of (rule, regex, replacement[, count]) applied to the fn text
         self.attrs = attrs        # attributes inserted before the fn (e.g. #[verifier::...])
@@ -597,8 +598,13 @@ class Piece:
         `if` / `match` statement S that is a statement of the loop body itself.  When exactly one branch of S falls through (the
         others end in continue / return / break), `S; REST` is the same as S with REST appended to that branch and the
         `continue`s dropped - REST is moved, never duplicated.  Anything else is refused (undecided)."""
+        return self._continue_in_block(text, toks, k, own[1])
+
+    def _continue_in_block(self, text, toks, k, bo):
+        """(see _continue_in_for) bo: the `{` of the loop body, or of a branch of an `if` / `match` statement that is the LAST statement
+        of the loop body (or, again, of such a branch): falling off the end of that branch is the end of the round, so the rest of
+        the round after the statement that holds the `continue` is the rest of this block only."""
         n = len(toks)
-        bo = own[1]
         bc = match_close(toks, bo)
         DIV = ("continue", "return", "break")
         # the statement of the loop body that contains the `continue`
@@ -716,6 +722,9 @@ class Piece:
                 else:
                     falls.append((kind, a, b))
         if k not in cont_sites:
+            inner = [(a, b) for (kind, a, b) in branches if kind == "block" and a < k < b]
+            if inner and all(toks[q].text == ";" for q in range(s1 + 1, bc)):
+                return self._continue_in_block(text, toks, k, inner[0][0])
             raise Undecided("`continue` of a `for` loop that does not end a branch of its `if` / `match` statement")
         nfall = len(falls) + (1 if implicit_else else 0)
         if nfall != 1:
@@ -1210,10 +1219,22 @@ class Piece:
                 counted_sub[ordinal] = (ph, f"({x_} as int)", f"        {x_} <= {e_},\n    decreases {e_} - {x_},\n")
             else:
                 raise Undecided(f"{fn.name}: loop #{ordinal} is a bare `loop`: its contract counts rounds of a `for`/`while` loop")
+        lock_extra = {}
+        if getattr(fs, "locks", False):
+            import locks as _locks
+            l_ins, lock_extra, l_n = _locks.plan(self.sf.text, toks, kb, k1, lps, fn.name)
+            for pos_, txt_ in l_ins:
+                self._add(pos_, pos_, txt_, "T-DROP" if "release" in txt_ or "lkh_" in txt_ else "T-LOCK")
+            for n_ in lock_extra:
+                if n_ not in fs.loops:
+                    self._add(toks[lps[n_ - 1][1]].start, toks[lps[n_ - 1][1]].start, f"\n    invariant {lock_extra[n_]},\n", "T-DROP")
         for ordinal, text in fs.loops.items():
             if ordinal < 1 or ordinal > len(lps):
                 raise Undecided(f"{fn.name}: loop #{ordinal} not found (has {len(lps)})")
             kw, ko = lps[ordinal - 1]
+            if ordinal in lock_extra:
+                text = re.sub(r"\binvariant\b", "invariant " + lock_extra[ordinal] + ",", text, count=1)
+                text = re.sub(r"\bensures\b", "ensures " + lock_extra[ordinal] + ",", text, count=1)
             if ordinal in counted_sub:
                 ph, repl_, extra_ = counted_sub[ordinal]
                 text = text.replace("$" + ph, repl_)
@@ -1972,6 +1993,16 @@ class Unit:
                 if re.search(r"\b" + re.escape(name) + r"\b", vt + self._all_vtext) and not declared(name) and mc.group(0) not in consts:
                     consts.append(mc.group(0))
                     self.auto_log.append({"rule": "T-CONST", "file": relpath, "item": name, "from": mc.group(0), "to": mc.group(0)})
+            # T-STATIC (automatic): a top-level `static NAME: AtomicT = AtomicT::new(..)` is a cell shared by all threads (prelude stdx,
+            # vatomic: every read yields any value)
+            if "stdx" in self.preludes:
+                for ms in re.finditer(r"(?m)^(?:pub(?:\([^)]*\))?\s+)?static\s+(\w+)\s*:\s*(?:[\w:]+::)?(AtomicUsize|AtomicU64|AtomicBool)\s*=\s*(?:[\w:]+::)?\2::new\([^;]*\);", src):
+                    name, ty = ms.group(1), ms.group(2)
+                    if re.search(r"\b" + re.escape(name) + r"\b", vt + self._all_vtext) and not declared(name):
+                        c_ = f"pub const {name}: crate::vatomic::{ty} = crate::vatomic::{ty} {{ x: 0 }};"
+                        if c_ not in consts:
+                            consts.append(c_)
+                            self.auto_log.append({"rule": "T-STATIC", "file": relpath, "item": name, "from": ms.group(0), "to": c_})
         # inside verus! a reference type in a const needs its lifetime spelled out (as for the constants a unit takes by name)
         consts = [re.sub(r":\s*&\s*(?!')", ": &'static ", c_, count=1) for c_ in consts]
         return uses, consts
